@@ -528,91 +528,10 @@ def _ret_ctx(r, g):
 
 # -------------------------------------------------------------------------------------- C09.g
 def _wrapper_wiring(repo, rep):
-    """comment() / trailing_comment() wrappers are unwrapped into the right slots and routed to the right place"""
-    m = repo.module('prettyprinter')
-    n = 0
-    uw = m.funcs.get('unwrap_comments')
-    ppv = m.funcs.get('pretty_python_value')
-    if uw is None or ppv is None:
-        raise AnalysisError('unwrap_comments / pretty_python_value vanished')
-    v = uw.params[0]
-    g = Guards(uw.node)
-    wiring = {'_CommentedValue': 'comment', '_TrailingCommentedValue': 'trailing_comment'}
-    rets = [r for r in ast.walk(uw.node) if isinstance(r, ast.Return) and r.value is not None]
-    order = [src(e) for e in rets[0].value.elts] if rets and isinstance(rets[0].value, ast.Tuple) else []
-    n += 1
-    rep.check(len(rets) == 1 and order == [v, 'comment', 'trailing_comment'], 'C09.g', 'unwrap_comments:returns', uw.where,
-              'returns (value, comment, trailing_comment)', 'unwrap_comments returns %s' % order, nontrivial=True)
-    for cls, slot in wiring.items():
-        stores = [s_ for s_ in ast.walk(uw.node) if isinstance(s_, ast.Assign) and src(s_.value) == v + '.comment'
-                  and any(ff.pol and ff.text == 'isinstance(%s, %s)' % (v, cls) for ff in g.of(s_))]
-        n += 1
-        rep.check(len(stores) == 1 and src(stores[0].targets[0]) == slot, 'C09.g', 'unwrap_comments:%s->%s' % (cls, slot), uw.where,
-                  'comment of a %s goes to the %s slot' % (cls, slot),
-                  'under isinstance(value, %s) the comment text is stored in %s' % (cls, [src(s_.targets[0]) for s_ in stores]), nontrivial=True)
-        peel = [s_ for s_ in ast.walk(uw.node) if isinstance(s_, ast.Assign) and src(s_.targets[0]) == v and src(s_.value) == v + '.value'
-                and any(ff.pol and ff.text == 'isinstance(%s, %s)' % (v, cls) for ff in g.of(s_))]
-        n += 1
-        rep.check(len(peel) == 1, 'C09.g', 'unwrap_comments:%s:peels' % cls, uw.where, 'wrapper removed from the value',
-                  'the %s wrapper is not peeled off the value' % cls)
-    for fname, cls in (('comment_value', '_CommentedValue'), ('trailing_comment', '_TrailingCommentedValue')):
-        f = m.funcs.get(fname)
-        n += 1
-        if f is None:
-            rep.fail('C09.g', fname + ':exists', m.relpath, fname + ' vanished')
-            continue
-        rr = [r for r in ast.walk(f.node) if isinstance(r, ast.Return) and r.value is not None]
-        rep.check(len(rr) == 1 and src(rr[0].value) == '%s(%s, %s)' % (cls, f.params[0], f.params[1]), 'C09.g', fname + ':builds-' + cls, f.where,
-                  '%s(value, text) builds a %s' % (fname, cls), '%s returns %s' % (fname, [src(r.value) for r in rr]), nontrivial=True)
-    for cls in wiring:
-        ci = m.classes.get(cls)
-        init = ci.methods.get('__init__') if ci else None
-        n += 1
-        st = {src(s_.targets[0]): src(s_.value) for s_ in ast.walk(init.node) if isinstance(s_, ast.Assign)} if init else {}
-        rep.check(st.get('self.value') == 'value' and st.get('self.comment') == 'comment', 'C09.g', cls + ':stores', ci.where if ci else m.relpath,
-                  'wrapper stores value and comment in their own fields', '%s.__init__ stores %s' % (cls, st), nontrivial=True)
-    # pretty_python_value: unpack order, routing
-    unp = [s_ for s_ in ast.walk(ppv.node) if isinstance(s_, ast.Assign) and isinstance(s_.value, ast.Call) and call_name(s_.value) == 'unwrap_comments']
-    n += 1
-    tgt = [src(e) for e in unp[0].targets[0].elts] if unp and isinstance(unp[0].targets[0], ast.Tuple) else []
-    rep.check(len(tgt) == 3 and tgt[1:] == ['comment', 'trailing_comment'], 'C09.g', 'pretty_python_value:unpacks-in-order', ppv.where,
-              '(value, comment, trailing_comment) unpacked in the order returned', 'pretty_python_value unpacks into %s' % tgt, nontrivial=True)
-    gp = Guards(ppv.node)
-    for c in ast.walk(ppv.node):
-        if isinstance(c, ast.Call) and call_name(c) == 'pretty_dispatch':
-            kw = {k.arg: src(k.value) for k in c.keywords}
-            if kw:
-                n += 1
-                rep.check(kw == {'trailing_comment': 'trailing_comment'} and any(ff.pol and ff.text == 'trailing_comment' for ff in gp.of(c)),
-                          'C09.g', 'pretty_python_value:trailing-comment-routed', '%s:%d' % (m.relpath, c.lineno),
-                          'trailing comment handed to the printer as trailing_comment=', 'dispatch keywords are %s' % kw, nontrivial=True)
-        if isinstance(c, ast.Call) and call_name(c) == 'comment_doc':
-            n += 1
-            a = [src(x) for x in c.args]
-            rep.check(len(a) == 2 and a[1] == 'comment' and any(ff.pol and ff.text == 'comment' for ff in gp.of(c)), 'C09.g',
-                      'pretty_python_value:comment-attached-to-doc', '%s:%d' % (m.relpath, c.lineno),
-                      'comment attached to the printed document', 'comment_doc is called with %s' % a, nontrivial=True)
-    n += 1
-    rep.check(any(isinstance(c, ast.Call) and call_name(c) == 'comment_doc' for c in ast.walk(ppv.node)), 'C09.g',
-              'pretty_python_value:attaches-comment', ppv.where, 'a comment() on a value is attached to its document',
-              'pretty_python_value no longer attaches the comment of a commented value to the printed document: the comment is lost', nontrivial=True)
-    n += 1
-    rep.check(any(isinstance(c, ast.Call) and call_name(c) == 'pretty_dispatch' and any(k.arg == 'trailing_comment' for k in c.keywords)
-                  for c in ast.walk(ppv.node)), 'C09.g', 'pretty_python_value:passes-trailing-comment', ppv.where,
-              'a trailing_comment() on a value is passed to its printer', 'pretty_python_value no longer passes the trailing comment on', nontrivial=True)
+    """comment() / trailing_comment() wrappers are unwrapped into the right slots and routed to the right place: decided by
+    interpreting the public functions, unwrap_comments and pretty_python_value on wrappers in every small nesting"""
+    from . import wrapper_model
+    n = wrapper_model.comment_wiring(repo, rep, 'C09.g')
     from .c02 import intersperse_rule
     n += intersperse_rule(repo, rep, 'C09.g')
-    cd = m.funcs.get('comment_doc')
-    if cd is not None:
-        rr = [r for r in ast.walk(cd.node) if isinstance(r, ast.Return) and r.value is not None]
-        n += 1
-        rep.check(len(rr) == 1 and src(rr[0].value) == 'annotate(CommentAnnotation(%s), %s)' % (cd.params[1], cd.params[0]), 'C09.g',
-                  'comment_doc:annotates', cd.where, 'comment_doc(doc, text) = annotate(CommentAnnotation(text), doc)',
-                  'comment_doc returns %s' % [src(r.value) for r in rr], nontrivial=True)
-    ic = m.funcs.get('is_commented')
-    if ic is not None:
-        n += 1
-        t = src(ic.node)
-        rep.check('isinstance(%s, Annotated)' % ic.params[0] in t and 'isinstance(%s.annotation, CommentAnnotation)' % ic.params[0] in t, 'C09.g',
-                  'is_commented:definition', ic.where, 'commented = Annotated with a CommentAnnotation', 'is_commented changed')
-    rep.floor('C09.g', n, 12)
+    rep.floor('C09.g', n, 20)
